@@ -408,7 +408,7 @@ def object_case(c):
             f = np.full((nq, nz), 0.75)                                    # constants
         else:
             f = np.array([[rng.uniform(-1, 1) for _ in range(nz)] for _ in range(nq)])
-        cs = ac.spline_coeff_rows(obj._interpolator, obj._thetaSpline, [f[:, i] for i in range(nz)])
+        cs = ac.spline_coeff_rows(*ac.own_tools(bs[1]), [f[:, i] for i in range(nz)])
         g = f.copy()
         if t == 1:
             # the caller's slice may be a view: a plane of a larger block (same values, other strides)
